@@ -131,6 +131,17 @@ def stepP (s : St) : St :=
   | .c4 => { s with word := 0, p := .c5 }
   | .c5 => { s with cq := 0, p := .idle, oblig := false, returns := s.returns + 1 }
 
+/-- The poller's step when a signal is delivered to its thread while it is in (or about to
+enter) `io_uring_enter`: the kernel consumes the submissions and moves what fits from the
+overflow list as usual, but the wait — if one is needed — ends at once with `EINTR`, which
+`Shared::enter` swallows (src/io_uring/mod.rs: `ETIME | EINTR => Ok(0)`): the call goes on to
+`set_polling(false)`. A poller already blocked in the kernel returns the same way. -/
+def stepPI (s : St) : St :=
+  match s.p with
+  | .e3 _ n => { flush (consume s n) with p := .c4 }
+  | .waiting => { flush s with p := .c4 }
+  | _ => stepP s
+
 /-- Try to queue the wake message (`Submissions::add`). -/
 def tryAdd (s : St) : St × Bool :=
   if s.sq.length < s.sqLen then ({ s with sq := s.sq ++ [true] }, true) else (s, false)
@@ -224,6 +235,13 @@ def stepLine (s : St) (toks : List String) : St × List String :=
     if inf != "0" && inf != "1" then (s, ["bad-op"]) else
     match s.p with
     | .idle => let s' := startPoll s (inf == "1"); (s', [s!"p {showP s'.p} {showState s'}"])
+    | _ => (s, ["bad-op"])
+  -- a `Ring::poll(None)` during which a signal arrives: an interrupted `io_uring_enter` is an
+  -- `io_uring_enter` that does not wait (`stepPI`, `C11_interrupted_enter_is_zero_timeout`), so
+  -- the call behaves as one with a zero timeout
+  | ["wake", "polli"] =>
+    match s.p with
+    | .idle => let s' := startPoll s false; (s', [s!"p {showP s'.p} {showState s'}"])
     | _ => (s, ["bad-op"])
   | ["wake", "p"] =>
     match s.p with
